@@ -117,6 +117,7 @@ def _case(draw, tier):
         "wd": draw(st.sampled_from(WDS + ["plain", "plain"])),
         "wf_defaults": opts(), "template_options": opts(), "options": opts(),
         "via": draw(st.sampled_from(["target", "template"])),
+        "sibling": draw(st.booleans()),
         "log_mode": draw(st.sampled_from([None, "full", "merged", "none"])),
         "clean_logs": draw(st.sampled_from([None, True, False])),
         "config_via": draw(st.sampled_from(["file", "cli"])),
@@ -280,7 +281,15 @@ def run_case(case):
     if case["via"] == "target":
         t["wd"] = None
         t["via"] = "target"
-    desc = {"targets": [t, {"name": "Keep", "inputs": [], "outputs": [], "spec": "true\n", "wd": None}],
+    sib = []
+    if t["via"] == "template" and case.get("sibling"):
+        # an earlier target made from a template around the same options dictionary, with keyword options of its
+        # own: they are its own business
+        t["share"] = "opts"
+        sib = [{"name": "Sib", "inputs": [], "outputs": [], "spec": "true\n", "wd": None, "via": "template", "share": "opts",
+                "template_options": dict(t["template_options"]),
+                "options": {k: v for k, v in (("cores", 7), ("queue", "sibq"), ("memory", "3g")) if k in DEFAULTS[b]}}]
+    desc = {"targets": sib + [t, {"name": "Keep", "inputs": [], "outputs": [], "spec": "true\n", "wd": None}],
             "defaults": case["wf_defaults"], "files": {}}
     cfg = {}
     if case["log_mode"] and b == "slurm":
